@@ -79,16 +79,27 @@ class WalkerModel:
         cands = [st for st in fn.body if isinstance(st, ast.If) and self._isinstance_classes(st.test) is not None]
         if cands:
             chain = max(cands, key=chain_len)       # the dispatch chain is the longest isinstance if/elif chain
+        if chain is None:
+            raise AnalysisError('query_traversal: isinstance dispatch chain not found')
+        from .cfg import _always_exits
+        # guard-style branches: a top-level `if isinstance(node, X): ... return ...` standing before the chain is a branch of the dispatch as well
+        heads = []
         seen_chain = False
         for st in fn.body:
             if st is chain:
                 seen_chain = True
+                heads.append(st)
+            elif isinstance(st, ast.If) and self._isinstance_classes(st.test) is not None and not st.orelse and _always_exits(st.body) and self.pre \
+                    and not seen_chain:
+                heads.append(st)
             elif not seen_chain:
                 self.pre.append(st)
             else:
                 self.post.append(st)
-        if chain is None:
-            raise AnalysisError('query_traversal: isinstance dispatch chain not found')
+        for head in heads:
+            self._add_chain(head)
+
+    def _add_chain(self, chain):
         n = chain
         while True:
             cls = self._isinstance_classes(n.test)
